@@ -163,7 +163,16 @@ pub fn owning_run(lie: bool) {
                             if r.is_ok() && seen.is_some() && rec.reported as usize > bufsz {
                                 // tolerated only if the slice was clipped
                             }
-                            lost_buffers += if r.is_err() { 1 } else { 0 };
+                            // the refused buffer is given up - or posted again at once; either
+                            // way every buffer stays accounted for
+                            if r.is_err() {
+                                let (post, pendingc) = with(|w| (posted(w, q), w.personality::<EventSource>().delivered.len()));
+                                if post + pendingc + lost_buffers != size {
+                                    lost_buffers += 1;
+                                } else {
+                                    probe("oversized_completion_buffer_reposted");
+                                }
+                            }
                         } else {
                             delivered_total += 1;
                             match &seen {
@@ -259,6 +268,7 @@ impl TransportFn<()> for InputRun {
         with(|w| w.check_no_lost_wakeup("input-new"));
         let n_ops = 10 + choose(120);
         let mut total = 0u64;
+        let mut fetched = std::collections::VecDeque::new();
         for _ in 0..n_ops {
             if violated() {
                 break;
@@ -271,17 +281,35 @@ impl TransportFn<()> for InputRun {
                 });
                 oplog(|| format!("device may emit {burst} more event(s)"));
             } else {
-                let expect = with(|w| w.personality::<EventSource>().delivered.front().cloned());
+                // A call may fetch several completed events at once and hand them out one per
+                // call: every buffer posted again during the call is one completion consumed, in
+                // used-ring order; what was fetched is owed to the caller in that order.
+                let avail_before = with(|w| w.avail_idx_mem(0).unwrap_or(0));
                 let got = input.pop_pending_event();
                 oplog(|| format!("pop_pending_event -> {got:?}"));
-                match (expect, got) {
-                    (None, None) => {}
+                let consumed = with(|w| w.avail_idx_mem(0).unwrap_or(0)).wrapping_sub(avail_before) as usize;
+                for _ in 0..consumed {
+                    match with(|w| w.personality::<EventSource>().delivered.pop_front()) {
+                        Some(r) => fetched.push_back(r),
+                        None => {
+                            violation("input-spurious-repost", "pop_pending_event", format!("{consumed} buffer(s) were posted during the call but fewer completions were pending"));
+                            break;
+                        }
+                    }
+                }
+                if consumed > 1 {
+                    probe("input_events_fetched_in_batch");
+                }
+                let pending_at_device = with(|w| w.personality::<EventSource>().delivered.front().cloned());
+                match (fetched.pop_front(), got) {
+                    (None, None) => {
+                        if let Some(rec) = pending_at_device {
+                            violation("input-event-lost", "pop_pending_event", format!("event {} pending (token {}) but pop_pending_event returned None", rec.n, rec.head));
+                        }
+                    }
                     (None, Some(e)) => violation("input-spurious-event", "pop_pending_event", format!("no event pending but got {e:?}")),
-                    (Some(rec), None) => violation("input-event-lost", "pop_pending_event", format!("event {} pending (token {}) but pop_pending_event returned None", rec.n, rec.head)),
+                    (Some(rec), None) => violation("input-event-lost", "pop_pending_event", format!("event {} (token {}) was taken from the queue but pop_pending_event returned None", rec.n, rec.head)),
                     (Some(rec), Some(e)) => {
-                        with(|w| {
-                            w.personality::<EventSource>().delivered.pop_front();
-                        });
                         total += 1;
                         let want = input_event(rec.n);
                         let got_bytes: Vec<u8> = [e.event_type.to_le_bytes().to_vec(), e.code.to_le_bytes().to_vec(), e.value.to_le_bytes().to_vec()].concat();
